@@ -6,6 +6,12 @@ hooks = subprocess.run(["git", "-C", "/repo", "log", "--format=%H %s"], capture_
 hook_commits = [l.split()[0] for l in hooks if l.split(" ", 1)[1].startswith("verif:")]
 
 CHECKS = {
+ "C11": dict(engine="gated", design="§5 C11", technique="TLC exhaustive check of Gated.tla (ExactlyOnce, ArrivalOrder, NoMixing, WholeGroup, ...) + spec->code replay of every transition and of simulated walks on a real gated.Filter with probes on replayed copies",
+   text="Model checking of the gate as a sequential object over all call sequences to the depth bound (3 ids, flush/non-flush, non-gateable, empty id, clock advance, FlushAll, Close, Broker set/unset, every failure injection); each transition is executed on the real filter and its returned composite, the composites handed to the Broker and what remains gated (FlushAll / per-id flush probes) are compared.",
+   note="Sequential histories; the concurrent-senders clause is covered only by the race/crash sensors of C19 until the concurrent trace check is registered. Trusted: harness Gateable payload and Sender."),
+ "C17": dict(engine="gated", design="§5 C17", technique="TLC exhaustive check of Gated.tla (NoExpiredAfterProcess, EmptyAfterFlushAll, ExpiredOldestFirst, MemoryBounded) + spec->code replay on a real gated.Filter",
+   text="Model checking that expiry, FlushAll and Close empty the gate over all histories to the depth bound with 0..5 open groups and arbitrary clock advances; bound to the real filter by replaying every transition and probing what is still gated on replayed copies.",
+   note="Trusted: NowFunc is the filter's only clock; harness Sender records what was emitted."),
  "C01": dict(engine="dispatch", design="§5 C01", technique="TLC exhaustive check of Dispatch.tla (all interleavings, cancel anywhere) + code->spec validation of per-goroutine traces of real Sends (DispatchTrace.tla) + registry replay of deliveries",
    text="Model checking of the dispatch protocol (AtMostOnce, ForwardOnlyIf, CarryExact, liveness ForwardIf/AllStartedWhenNotCancelled) over every interleaving of collector, ranger and node goroutines with cancellation at every step; real Sends over generated configurations are recorded through hooks, validated by TLC against the model, and judged by per-execution oracles on the nodes' own logs.",
    note="Trusted: harness node logs, event pointer identity. A recorded execution the model rejects while every oracle holds is reported as MODEL-DRIFT, not as a violation."),
@@ -29,6 +35,7 @@ CHECKS = {
    note="Trusted: harness node Reopen counters."),
 }
 ENGINES = [
+ {"name": "gated", "path": "spec/gated + harness/gatedrep + lib/fam_gated.py", "serves_properties": ["C11", "C17"], "kind_free_text": "TLA+ model of gated.Filter, TLC exhaustive + simulation, Go replayer"},
  {"name": "dispatch", "path": "spec/dispatch + harness/dispatch + lib/fam_dispatch.py", "serves_properties": ["C01", "C02", "C03"], "kind_free_text": "TLA+ model of graph.process/doProcess, TLC exhaustive + liveness, trace validation of recorded Sends"},
  {"name": "registry", "path": "spec/registry + harness/registry + lib/fam_registry.py", "serves_properties": ["C05", "C06", "C07", "C20"], "kind_free_text": "TLA+ model of the Broker registry, TLC exhaustive + simulation, Go replayer"},
 ]
